@@ -23,7 +23,7 @@ func immOrigins() []struct {
 } {
 	arr := func() *Node { return Arr(Int(1), Arr(Int(2), Int(3)), Map([]string{"k"}, []*Node{Int(4)})) }
 	mp := func() *Node { return Map([]string{"a", "b", "c"}, []*Node{Int(1), Arr(Int(2), Int(3)), Map([]string{"k"}, []*Node{Int(4)})}) }
-	return []struct {
+	base := []struct {
 		name string
 		mk   func() ([]*Node, []Module)
 	}{
@@ -71,6 +71,63 @@ func immOrigins() []struct {
 			return []*Node{Def("src", Arr(Int(1), Int(2), Int(3), Int(4))), Def("v", Imm(Slice(Id("src"), Int(1), Int(3))))}, nil
 		}},
 	}
+	// immutable(x) where the code of x ends in every small byte value (the slot number of a global or local, the length of an
+	// array literal), and where x itself contains immutable(...) on one path only: nothing about the operand's code may
+	// decide whether the value is made immutable
+	zeros := func(n int, pre string) []*Node {
+		var st []*Node
+		for i := 0; i < n; i++ {
+			st = append(st, Def(fmt.Sprintf("%s%d", pre, i), Int(0)))
+		}
+		return st
+	}
+	for k := 0; k <= 40; k++ {
+		k := k
+		base = append(base, struct {
+			name string
+			mk   func() ([]*Node, []Module)
+		}{fmt.Sprintf("immutable-of-global-slot-%d", k), func() ([]*Node, []Module) {
+			return append(zeros(k, "z"), Def("src", arr()), Def("v", Imm(Id("src")))), nil
+		}})
+		if k >= 1 {
+			base = append(base, struct {
+				name string
+				mk   func() ([]*Node, []Module)
+			}{fmt.Sprintf("immutable-of-array-literal-%d", k), func() ([]*Node, []Module) {
+				el := []*Node{Int(1), Arr(Int(2), Int(3))}
+				for len(el) < k {
+					el = append(el, Int(int64(len(el))))
+				}
+				return []*Node{Def("v", Imm(Arr(el[:k]...)))}, nil
+			}})
+		}
+		if k >= 12 && k <= 24 {
+			base = append(base, struct {
+				name string
+				mk   func() ([]*Node, []Module)
+			}{fmt.Sprintf("immutable-of-local-slot-%d", k), func() ([]*Node, []Module) {
+				body := append(zeros(k, "l"), Def("src", arr()), Ret(Imm(Id("src"))))
+				return []*Node{Def("mk", Fn(nil, false, body...)), Def("v", Call(Id("mk")))}, nil
+			}})
+		}
+	}
+	base = append(base, struct {
+		name string
+		mk   func() ([]*Node, []Module)
+	}{"immutable-of-cond-with-immutable-branch", func() ([]*Node, []Module) {
+		return []*Node{Def("c", Bool(true)), Def("v", Imm(Cond(Id("c"), arr(), Imm(Arr()))))}, nil
+	}}, struct {
+		name string
+		mk   func() ([]*Node, []Module)
+	}{"immutable-of-or-with-immutable-branch", func() ([]*Node, []Module) {
+		return []*Node{Def("v", Imm(Bin("||", mp(), Imm(Map(nil, nil)))))}, nil
+	}}, struct {
+		name string
+		mk   func() ([]*Node, []Module)
+	}{"immutable-of-and-with-immutable-branch", func() ([]*Node, []Module) {
+		return []*Node{Def("c", Bool(false)), Def("v", Imm(Bin("||", Bin("&&", Id("c"), Imm(Arr())), arr())))}, nil
+	}})
+	return base
 }
 
 func (g *immGen) op(src string) []*Node {
@@ -198,6 +255,19 @@ func immutPrograms(r *rand.Rand, n int) []*Program {
 		}
 		st = append(st, Def("same", Bin("==", Id("snap"), Id("v"))))
 		ps = append(ps, &Program{Stmts: st, Modules: mods, Meta: map[string]interface{}{"cell": o.name}})
+	}
+	// one fixed program per "immutable-of-..." origin: the direct write that must fail
+	for _, o := range origins {
+		if len(o.name) < 13 || o.name[:13] != "immutable-of-" {
+			continue
+		}
+		st, mods := o.mk()
+		sel := []*Node{Int(0)}
+		if o.name == "immutable-of-or-with-immutable-branch" {
+			sel = []*Node{DotKey("a")}
+		}
+		st = append(st, Def("snap", Call(Id("copy"), Id("v"))), Def("imm", Call(Id("is_immutable_array"), Id("v"))), Set("v", sel, "=", Int(99)))
+		ps = append(ps, &Program{Stmts: st, Modules: mods, Meta: map[string]interface{}{"cell": o.name + "/write"}})
 	}
 	return ps
 }
